@@ -12,7 +12,7 @@ import keyword
 import re
 import tokenize
 
-KINDS = ["delete", "duplicate", "swap", "rename", "crosswire", "retype", "truncate", "splice", "cyclic"]
+KINDS = ["delete", "duplicate", "swap", "rename", "crosswire", "retype", "truncate", "splice", "cyclic", "nest"]
 
 
 def _stmts(src: str) -> list[tuple[int, int]] | None:
@@ -276,6 +276,62 @@ def cyclic(src: str, rng) -> str:
     return _join(lines + tail.split("\n"))
 
 
+NEST_WRAPPERS = ["[{S}]", "({S}, {V})[1]", "({S},)", "{0: {S}}", "[{S}, {V}]", "str({S})", "({S} or {V})", "{S}",
+                 "[{S} for _ in range(2)]", "(lambda: {S})()", "[{V}, {S}][0]"]
+
+
+def nest(src: str, rng) -> str:
+    """nested self-reference: an argument expression of a call statement (or the value of `d[k] = v`, `x += v`) is replaced
+    by a copy of the whole statement's expression wrapped in a display / subscript / call:
+        x.append(E)  →  x.append([x.append(E)])        d[k] = v  →  d[k] = [d.setdefault(k, v)]
+        x += v       →  x += [x.extend(v)]             f(a, b)   →  f(a, (f(a, b), b)[1])"""
+    try:
+        tree = ast.parse(src)
+    except (SyntaxError, ValueError, RecursionError, MemoryError):
+        return duplicate(src, rng)
+    cands = []
+    for n in ast.walk(tree):
+        if isinstance(n, ast.Expr) and isinstance(n.value, ast.Call) and (n.value.args or n.value.keywords):
+            # method calls on a name first (they are the ones that refine partial types), other calls as well
+            w = 4 if isinstance(n.value.func, ast.Attribute) and isinstance(n.value.func.value, ast.Name) else 1
+            cands += [("call", n)] * w
+        elif isinstance(n, ast.Assign) and len(n.targets) == 1 and isinstance(n.targets[0], ast.Subscript) \
+                and isinstance(n.targets[0].value, ast.Name):
+            cands += [("setitem", n)] * 3
+        elif isinstance(n, ast.AugAssign) and isinstance(n.target, ast.Name):
+            cands += [("aug", n)] * 3
+    if not cands:
+        return duplicate(src, rng)
+    kind, n = rng.choice(cands)
+    seg = lambda e: ast.get_source_segment(src, e)  # noqa: E731
+    wrap = rng.choice(NEST_WRAPPERS)
+    if kind == "call":
+        call = n.value
+        args = list(call.args) + [k.value for k in call.keywords]
+        a = rng.choice(args)
+        inner, old = seg(call), seg(a)
+        if not inner or not old or getattr(a, "end_lineno", None) is None:
+            return src
+        new = wrap.replace("{S}", inner).replace("{V}", old)
+        return _splice_span(src, (a.lineno, a.col_offset, a.end_lineno, a.end_col_offset, old), new)
+    if kind == "setitem":
+        tgt, val = n.targets[0], n.value
+        base, key, v = seg(tgt.value), seg(tgt.slice), seg(val)
+        if not base or not key or not v:
+            return src
+        inner = rng.choice([f"{base}.setdefault({key}, {v})", f"{base}.update({{{key}: {v}}})", f"{base}.__setitem__({key}, {v})",
+                            f"{base}.append({v})"])
+        new = wrap.replace("{S}", inner).replace("{V}", v)
+        return _splice_span(src, (val.lineno, val.col_offset, val.end_lineno, val.end_col_offset, v), new)
+    val = n.value
+    x, v = n.target.id, seg(val)
+    if not v:
+        return src
+    inner = rng.choice([f"{x}.append({v})", f"{x}.extend({v})", f"{x}.add({v})", f"{x}.update({v})", f"{x}.__iadd__({v})"])
+    new = wrap.replace("{S}", inner).replace("{V}", v)
+    return _splice_span(src, (val.lineno, val.col_offset, val.end_lineno, val.end_col_offset, v), new)
+
+
 def mutate(kind: str, src: str, rng, other: str) -> str:
     try:
         if kind == "delete":
@@ -296,6 +352,8 @@ def mutate(kind: str, src: str, rng, other: str) -> str:
             return splice(src, rng, other)
         if kind == "cyclic":
             return cyclic(src, rng)
+        if kind == "nest":
+            return nest(src, rng)
     except (IndexError, ValueError, RecursionError):
         pass
     return src
